@@ -2,6 +2,7 @@
 
 from __future__ import annotations
 
+import asyncio
 import random
 
 from .world import World
@@ -76,7 +77,10 @@ async def apply_common(w: World, op: dict) -> bool:
     elif kind == "webhook":
         try:
             await w.webhook_post(op["id"], op.get("payload") or {}, as_json=op.get("json", True))
-        except Exception as exc:  # pylint: disable=broad-except
+        except (Exception, asyncio.CancelledError) as exc:  # pylint: disable=broad-except
+            # the handler pyscript registered raised into Home Assistant's webhook dispatcher
+            w.ha_exceptions.append({"vt": w.vts(), "message": f"webhook handler raised {type(exc).__name__}",
+                                    "exc": repr(exc)})
             w.trace.append(["op_exc", "webhook", repr(exc)[:100]])
     elif kind == "stall":
         w.loop.stall(op["s"])
